@@ -362,6 +362,16 @@ static enum bs_read_callback_return ws_get_mask(void *context, uint8_t *buf, siz
 
 static enum bs_read_callback_return read_mask_or_payload(struct websocket *s)
 {
+	if (unlikely((s->ws_flags.opcode >= WS_CLOSE_FRAME) && (s->length > WS_SMALL_FRAME_SIZE))) {
+		/*
+		 * Refuse oversized control frames before trying to read a
+		 * payload that might not even fit into the read buffer.
+		 */
+		log_err("Control frames must not carry more than 125 bytes!");
+		handle_error(s, WS_CLOSE_PROTOCOL_ERROR);
+		return BS_CLOSED;
+	}
+
 	struct buffered_reader *br = &s->connection->br;
 	if (s->ws_flags.mask == 1) {
 		br->read_exactly(br->this_ptr, sizeof(s->mask), ws_get_mask, s);
